@@ -52,11 +52,18 @@ def tovec(n, fails):
             % (n, 'TRUE' if fails else 'FALSE'))
 
 
+def combconc(n, items, amb):
+    return ('CombConc', 'combconc_%s_%dx%d' % ('amb' if amb else 'merge', n, items),
+            'SPECIFICATION Spec\nCONSTANTS NInputs = %d\n NItems = %d\n Amb = %s\n AtomicRemove = TRUE\n AtomicElect = TRUE\n'
+            'INVARIANTS ExactlyOneComplete AtMostOneComplete CompleteIsLast NothingLost OneWinner WinnerComplete\nCHECK_DEADLOCK FALSE\n' % (n, items, 'TRUE' if amb else 'FALSE'))
+
+
 C19INV = ['AtMostOneTerminal', 'NothingStartedAfterTerminal', 'ExactlyOneAtTheEnd']
 CONC = {
     # property: (monitor flags of ConcProps.Judge, design-level models quick, thorough)
     'C19': (['C19'], [sinkconc(2, 2, C19INV)], [sinkconc(2, 2, C19INV), sinkconc(3, 1, C19INV), sinkconc(2, 3, C19INV)]),
-    'C11': (['C11', 'C19'], [sinkconc(2, 2, ['AtMostOneTerminal'])], [sinkconc(3, 1, ['AtMostOneTerminal'])]),
+    'C11': (['C11', 'C19'], [sinkconc(2, 2, ['AtMostOneTerminal']), combconc(3, 1, False), combconc(3, 2, True)],
+            [sinkconc(3, 1, ['AtMostOneTerminal']), combconc(3, 2, False), combconc(4, 1, False), combconc(3, 3, True)]),
     'C07': (['C07'], [schedqueue(2, 2, '{11}', 'deadlock_2x2')], [schedqueue(2, 3, '{11}', 'deadlock_2x3'), schedqueue(3, 1, '{11}', 'deadlock_3x1')]),
     'C08': (['C08'], [schedqueue(2, 2, '{11}', '2x2_abort_inside')], [schedqueue(2, 2, '{11}', '2x2_abort_inside'), schedqueue(2, 3, '{}', '2x3'), schedqueue(3, 1, '{11}', '3x1')]),
     'C09': (['C09'], [schedqueue(1, 3, '{13}', 'handoff_1x3_abort_in_last')], [schedqueue(1, 3, '{13}', 'handoff_1x3_abort_in_last'), schedqueue(2, 2, '{}', 'handoff_2x2')]),
